@@ -10,7 +10,7 @@ import (
 
 func init() {
 	register(&propDef{
-		ID: "C14", Level: "other", Run: runC14,
+		ID: "C14", Level: "other", Run: withShared(runC14, share{"C07", runC07, cardsSurviveReload}),
 		Explanation: "Deal is a counting loop in which the card appended in each iteration is Meta.Deck[i] with i equal to Status.CurrentDeckPosition at the loop head, both advancing by exactly one per card, and the cursor is written nowhere else; every store to HoleCards, Board or Burned stores a fresh empty slice, the result of Deal, or the same field extended by the result of Deal; the deck is stored only from the options and from the shuffle of itself; no element of a dealt slice is ever overwritten; the street switch deals HoleCardsCount to every player preflop, burns 1 and adds 3 on the flop, burns 1 and adds 1 on turn and river, with the burn first and no other dealing; nothing else calls Deal or Burn; the shuffle's only writes are the two stores of one exchange inside rand.Shuffle over the whole slice, and it returns the same slice. Deck sources return a newly allocated slice per call. Does NOT decide that the configured deck has no duplicates and enough cards.",
 		Trusted:     commonTrusted,
 		Assumptions: []string{"math/rand.Shuffle calls the swap function with in-range indices (documented)"},
